@@ -121,7 +121,7 @@ def run_shard(prop_id: str, sub_name: str, tier: str, seed: int, shard: int, nsh
     res = {
         "sub": sub_name, "shard": shard, "evaluations": 0, "nontrivial_hashes": set(),
         "labels": {}, "samples": {}, "violations": [], "excluded_known": {},
-        "inconclusive": 0, "error": None, "wall_s": 0.0, "exhausted": False,
+        "inconclusive": 0, "rejected": 0, "error": None, "wall_s": 0.0, "exhausted": False,
     }
 
     def account(case):
@@ -142,6 +142,8 @@ def run_shard(prop_id: str, sub_name: str, tier: str, seed: int, shard: int, nsh
         for v in viols:
             if v.key == "INCONCLUSIVE":
                 res["inconclusive"] += 1
+            elif v.key == "REJECTED":
+                res["rejected"] = res.get("rejected", 0) + 1
             elif v.key in known:
                 res["excluded_known"][v.key] = res["excluded_known"].get(v.key, 0) + 1
             else:
